@@ -28,6 +28,7 @@ func main() {
 		Rule: "case = (syncer in {registry, multi-event, sequencer}) x one generated block tree and head sequence (extensions observed block by block or with gaps, repeated heads, heads stepping back, fork switches abandoning 0..10 synced blocks whose first new head is <= synced+1, re-registration of the same key on the other fork, inadmissible events, optionally one jump of more than 10,000 blocks) x one fault placement (none | RPC error at call k | failing database round trip k | crash before round trip k | crash after the commit of round trip k, followed by a fresh syncer object on the same database). " +
 			"oracle at every commit and after every Sync: if the recorded position (n, hash) is the canonical block n then the event table equals the canonical admissible events in [first synced block, n]. distinct = (syncer, tree/head script, fault); non-trivial = at least one fork switch or fault",
 		Assumptions: []string{
+			"the node answers an inverted eth_getLogs range (from > to) with an error or, in half of the cases, with an empty result (both behaviours exist)",
 			"the canonical chain is fixed during one Sync call and equals the ancestry of the observed head (a reorg racing a single call is outside the property's quantifier)",
 			"rows for canonical admissible events below the configured start block are tolerated; a key is registered at most once on one chain (contract rule), but may be registered again on the other fork",
 			"the multi-event syncer's first synced block is its start block + 1 (its own convention); committed => durable (pgmem)",
@@ -227,6 +228,7 @@ func runScenario(ctx context.Context, env *vlib.Env, rep *vlib.Reporter, idx int
 	}()
 	w := &world{chain: ethfake.NewChain(1000), info: map[*ethfake.Block]*blockInfo{}, ad: ad, r: r.Split()}
 	defer w.chain.Close()
+	w.chain.LenientInvertedRange = r.Chance(1, 2) // nodes differ in how they answer from > to
 	recoverWorld = w
 	gen := &blockInfo{b: w.chain.Genesis, cs: &chainState{usedKeys: map[string]bool{}, nextTx: map[uint64]uint64{}}}
 	w.info[w.chain.Genesis] = gen
